@@ -73,6 +73,8 @@ def sparsify(b, rng):
         if o["op"] == "process":
             o["num"] = r(o["num"])
         elif o["op"] == "reorg":
+            if o.get("fault", {}).get("kind") == "stmt" and rng.random() < 0.3:
+                o["fault"] = dict(kind="commit", at=0)          # the reorg's COMMIT fails instead of one of its DELETEs
             f = o["from"]
             lo, hi = r(f - 1) + 1, r(f)
             o["from"] = rng.randint(lo, hi)
